@@ -86,6 +86,10 @@ def k_bw_outer(x, y):
     return x[:, None] * y[None, :]
 
 
+def k_ident(v):
+    return v
+
+
 def k_add_offset(x, offset=0):
     return x + offset
 
